@@ -231,7 +231,15 @@ PROFILES = {
 }
 
 
-def random_pats(rng, profile, count, depth=3, max_nodes=14, first_id=1):
+def rep_nest(e):
+    """maximal number of repeats nested inside one another"""
+    m = max([rep_nest(x) for x in kids(e)] + [0])
+    return m + (1 if e["k"] == "rep" else 0)
+
+
+def random_pats(rng, profile, count, depth=3, max_nodes=14, first_id=1, max_rep_nest=3):
+    """seeded sample of ASTs; repeats nested more than max_rep_nest deep are left out (the reference semantics enumerates every way a
+    nest of nullable loops can match, which is exponential in the nesting depth: one such pattern stalled a thorough run for 40 minutes)"""
     prof = PROFILES[profile]
     out = []
     seen = set()
@@ -240,7 +248,7 @@ def random_pats(rng, profile, count, depth=3, max_nodes=14, first_id=1):
         tries += 1
         g = Gen(rng, prof)
         ast = g.gen(depth)
-        if size(ast) > max_nodes or size(ast) < 3:
+        if size(ast) > max_nodes or size(ast) < 3 or rep_nest(ast) > max_rep_nest:
             continue
         key = repr(ast)
         if key in seen:
